@@ -33,7 +33,7 @@ private def joinOr (xs : List String) (sep : String) : String := if xs.isEmpty t
 
 def showScopeObs (o : ScopeObs) : String :=
   let hs := sortStrs (o.holders.map fun (a, n) => s!"{a}*{n}")
-  s!"{o.id}={boolStr o.exists_};{joinOr (sortStrs o.owners) "|"};{if o.vo = "" then "-" else o.vo};{joinOr hs "|"};{o.supply}"
+  s!"{o.id}={boolStr o.exists_};{joinOr (sortStrs o.owners) "|"};{if o.vo = "" then "-" else o.vo};{joinOr hs "|"};{o.supply};{if o.qvo = "" then "-" else o.qvo};{joinOr (sortStrs o.listed) "|"}"
 
 def showObs (o : Obs) : String :=
   let gs := sortStrs (o.grants.map fun g => s!"{g.granter}>{g.grantee}:{g.mt.toString}:{g.count}")
@@ -52,10 +52,11 @@ private def parseScopeObs (w : String) : Option ScopeObs :=
   match w.splitOn "=" with
   | [id, rest] =>
     match rest.splitOn ";" with
-    | [ex, owners, vo, holders, supply] => do
+    | [ex, owners, vo, holders, supply, qvo, listed] => do
       let hs ← (splitList holders).mapM parseHolder
       let sup ← parseInt? supply
-      pure { id, exists_ := ex = "1", owners := splitList owners, vo := if vo = "-" then "" else vo, holders := hs, supply := sup }
+      pure { id, exists_ := ex = "1", owners := splitList owners, vo := if vo = "-" then "" else vo, holders := hs, supply := sup,
+             qvo := if qvo = "-" then "" else qvo, listed := splitList listed }
     | _ => none
   | _ => none
 
